@@ -346,6 +346,7 @@ Property make() {
   p.id = "C07"; p.level = "exploration"; p.design_ref = "DESIGN.md §7 C07";
   p.rule = "plan = one variable (distance, distanceZ, distanceXY, angle, dihedral) with outputTotalForce, subtractAppliedForce 50%, temperature 0 or 300 K, kept awake by a histogram; 1-3 force-applying biases (5 templates) defined and deleted between "
            "1-4 run segments, 30-60 steps; lagged (70%) or same-step total forces; four runs per plan (no system forces, S, 2S, S + forces on foreign atoms); non-trivial = at least one inverse check; distinct = hash of (kind, flags, convention, bias and segment sequence)";
+  p.rule += " Later additions: nine kinds (also gyration, rmsd, eigenvector plain/normalised/difference, and c0 d0 + c1 d1 with cvcflags between segments); Jacobian terms of gyration/rmsd/eigenvector from a finite-difference divergence on the harness's own geometry; 15% of the non-periodic plans hide the Jacobian term (twin run without the option gives the biases' force).";
   p.assumptions = {"with lagged forces the engine returns at the next evaluation exactly F_system + F_Colvars of the previous one; Colvars projects them with the gradients it saved at that evaluation",
                    "Jacobian terms from the manual: 2kT/r (distance), kT/r (distanceXY), kT pi/180 cot(theta) (angle), 0 (distanceZ, dihedral)",
                    "with same-step forces the Jacobian term of the previous evaluation is accepted as well (counted by a probe)"};
